@@ -62,18 +62,19 @@ Lemma reuse_dropped : forall cf st k f e c room it,
   exec cf st (IGetDest k f e c) room = (st, [ICb c (CbFailed reason_duplicate); IDec k; ICb c CbEnd]).
 Proof. intros cf st k f e c room it H. cbn [exec]. rewrite H. reflexivity. Qed.
 
-(* the hazard the check excludes: a tombstone collection that meets a LIVE item with an active
-   timer is the Go panic "only stopped or completed timers can be released" *)
-Lemma gc_of_live_item_panics : forall cf st t it x,
+(* the scheduled tombstone collection (relayItems.deleteTomb, the code after the fix "the relay's
+   tombstone collection deletes only the tombstone it was scheduled for") that meets a LIVE item
+   leaves it -- and its active timer, and everything else -- alone: only the pending collection
+   is consumed.  (Before the fix the collection was relayItems.Delete: the live item was deleted
+   and the release of its active timer was the Go panic "only stopped or completed timers can be
+   released".) *)
+Lemma gc_of_live_item_noop : forall cf st t it,
   panicked st = 0 -> mem_key t (gcs st) = true ->
-  lookup key_eqb t (items st) = Some it -> lookup Z.eqb (it_tm it) (timers st) = Some x ->
-  tm_released x = false -> tm_active x = true ->
-  exists st', step cf st (LGc t) = Some st' /\ panicked st' = panic_release_active.
+  lookup key_eqb t (items st) = Some it -> it_tomb it = false ->
+  step cf st (LGc t) = Some (set_gcs st (remove_one t (gcs st))).
 Proof.
-  intros cf st t it x Hp Hm Hi Hx Hr Ha. unfold step. rewrite Hp, Hm. cbn [Z.eqb negb].
-  eexists. split; [reflexivity|].
-  unfold items_delete. cbn [set_gcs items]. rewrite Hi. cbn [fst].
-  unfold timer_release. cbn [set_items set_gcs timers]. rewrite Hx, Hr, Ha. reflexivity.
+  intros cf st t it Hp Hm Hi Ht. unfold step. rewrite Hp, Hm. cbn [Z.eqb negb].
+  rewrite (items_delete_tomb_live _ t it); [reflexivity|exact Hi|exact Ht].
 Qed.
 
 (* ---------------------------------------------------------------- example schedule *)
@@ -85,34 +86,55 @@ Definition ex_req (id : Z) : frame := {| f_mt := c_messageTypeCallReq; f_id := i
 (* call req 7 on connection 0 is relayed to connection 1 (timers 1 = destination item, 2 =
    originating item); the originating timer fires: error frame, tombstone, collection scheduled *)
 Definition ex_timed_out : list label :=
-  [LArrive 0 (ex_req 7) ex_env] ++ repeat (LStep (TR 0) true) 10 ++ [LFire 2] ++ repeat (LStep (TT 2) true) 6.
+  [LArrive 0 (ex_req 7) ex_env] ++ repeat (LStep (TR 0) true) 10 ++ [LFire 2] ++ repeat (LStep (TT 2) true) 7.
 (* ... the same id arrives again while the tombstone exists: the reader handles it completely *)
-Definition ex_reuse : list label := [LArrive 0 (ex_req 7) ex_env] ++ repeat (LStep (TR 0) true) 6.
+Definition ex_reuse : list label := [LArrive 0 (ex_req 7) ex_env] ++ repeat (LStep (TR 0) true) 7.
 (* ... and the collection fires *)
 Definition ex_collect : list label := [LGc (0, 0, 7)].
 
 (* ---------------------------------------------------------------- the re-use guard is necessary
 
-   Witness (model of the code as it is): two reader goroutines race on one call.  The reader of
-   the destination connection handles the FINAL call res: it looks the originating item up
-   (relay.Receive.afterGet: timer stopped, item copy held).  Meanwhile the reader of the source
-   connection forwards a non-final call req continue, the destination's send queue is full, so it
-   fails the call: failRelayItem finds the timer already stopped, entombs the originating item
-   and schedules its collection.  The first reader goes on with its copy: response forwarded,
-   finishRelayItem DELETES THE TOMBSTONE while its collection is still pending.  The caller
-   re-uses the id: no item, the call req is admitted.  The stale collection fires, deletes the
-   live item and releases its active timer: Go panic. *)
+   1. The schedule that was the witness for the code BEFORE the fix (two reader goroutines race on
+   one call: the reader of the destination connection has looked the originating item up for the
+   FINAL call res -- relay.Receive.afterGet: timer stopped, item copy held --; the reader of the
+   source connection forwards a non-final call req continue into a full send queue and fails the
+   call: tombstone, collection scheduled; the first reader goes on and finishRelayItem DELETES THE
+   TOMBSTONE while its collection is pending; the id is re-used and admitted; the stale collection
+   fires).  With relayItems.deleteTomb the stale collection meets a live item and leaves it alone:
+   no panic, the re-using call stays in flight with its timer armed. *)
 Definition race_req_more : frame := {| f_mt := c_messageTypeCallReq; f_id := 7; f_flags := 1; f_code := 0; f_wf := true |}.
 Definition race_req_cont : frame := {| f_mt := c_messageTypeCallReqContinue; f_id := 7; f_flags := 1; f_code := 0; f_wf := true |}.
 Definition race_res_last : frame := {| f_mt := c_messageTypeCallRes; f_id := 1; f_flags := 0; f_code := 0; f_wf := true |}.
 Definition ex_early_delete : list label :=
   [LArrive 0 race_req_more ex_env] ++ repeat (LStep (TR 0) true) 10 ++
   [LArrive 1 race_res_last ex_env] ++ repeat (LStep (TR 1) true) 5 ++          (* parked after Receive's Get *)
-  [LArrive 0 race_req_cont ex_env] ++ repeat (LStep (TR 0) false) 15 ++        (* destination queue full: fail, entomb *)
+  [LArrive 0 race_req_cont ex_env] ++ repeat (LStep (TR 0) false) 17 ++        (* destination queue full: fail, entomb *)
   repeat (LStep (TR 1) true) 5 ++                                              (* resumes: deletes the tombstones *)
   [LArrive 0 (ex_req 7) ex_env] ++ repeat (LStep (TR 0) true) 10 ++            (* id 7 re-used: admitted *)
   [LGc (0, 0, 7)].                                                             (* the stale collection *)
 
+Lemma stale_collection_harmless :
+  exists st it x, run ex_cf init ex_early_delete = Some st /\ panicked st = 0 /\ gcs st = [(1, 1, 1)] /\
+    lookup key_eqb (0, 0, 7) (items st) = Some it /\ it_tomb it = false /\
+    lookup Z.eqb (it_tm it) (timers st) = Some x /\ tm_armed x = true.
+Proof. do 3 eexists. vm_compute. repeat split; reflexivity. Qed.
+
+(* 2. The guard is STILL necessary for the code as it is: a re-used id that meets NO item may be
+   re-used while another goroutine still holds the key.  Witness: the reader of the destination
+   connection has looked the originating item up for the final call res (timer stopped, copy
+   held); the caller cancels the call (cancel relayed: both items deleted, End) and re-uses the
+   id at once: admitted, a live item with an armed timer under the same key; the first reader goes
+   on with its stale copy and finishRelayItem deletes the LIVE item of the new call: release of an
+   active timer, Go panic "only stopped or completed timers can be released". *)
+Definition cn_cf : config := {| cf_maxtombs := 30000; cf_cancel := true |}.
+Definition race_cancel : frame := {| f_mt := c_messageTypeCancel; f_id := 7; f_flags := 0; f_code := 0; f_wf := true |}.
+Definition ex_stale_finish : list label :=
+  [LArrive 0 (ex_req 7) ex_env] ++ repeat (LStep (TR 0) true) 10 ++
+  [LArrive 1 race_res_last ex_env] ++ repeat (LStep (TR 1) true) 5 ++          (* parked after Receive's Get *)
+  [LArrive 0 race_cancel ex_env] ++ repeat (LStep (TR 0) true) 14 ++           (* cancel relayed: both items deleted, End *)
+  [LArrive 0 (ex_req 7) ex_env] ++ repeat (LStep (TR 0) true) 10 ++            (* id 7 re-used: admitted *)
+  repeat (LStep (TR 1) true) 4.                                                (* resumes: finishRelayItem on the new call's item *)
+
 Lemma reuse_unguarded_refuted :
-  exists ls st, run ex_cf init ls = Some st /\ panicked st = panic_release_active.
-Proof. exists ex_early_delete. eexists. split; vm_compute; reflexivity. Qed.
+  exists ls st, run cn_cf init ls = Some st /\ panicked st = panic_release_active.
+Proof. exists ex_stale_finish. eexists. split; vm_compute; reflexivity. Qed.
